@@ -216,14 +216,6 @@ func zvC11Step(r *vh.Run, u zvC11Uni, hist []zvC11Op) (string, []zvC11Op, bool) 
 			}
 			classView[cl] = v.zvoNoID()
 			annID[o.P][cl] = v.PathID
-			if last && len(inUse) > 0 && !inUse[v.PathID] {
-				for _, rel := range hist[:i] {
-					if rel.Kind == "rm" {
-						r.Count("alloc_after_release", 1)
-						break
-					}
-				}
-			}
 			if old, dup := view[o.P][v.PathID]; dup && old.zvoNoID() != v.zvoNoID() {
 				viol(vh.Sig("clause", "unique", "differ", zvC11Differ(u, cl, clOf(old))), "prefix %s: path %d announced with identifier %d which already names a different path\n  held:      %s\n  announced: %s", pfxS, o.X, v.PathID, old, v)
 				break
@@ -386,11 +378,12 @@ func zvC11Universes(thorough bool) []zvC11Uni {
 }
 
 var zvC11Required = []string{"same_hash_different_attrs_on_one_prefix", "withdrawal_with_sibling_on_prefix", "release_of_shared_identifier",
-	"identifier_shared_by_prefixes", "alloc_after_release", "withdrawals_checked"}
+	"identifier_shared_by_prefixes", "withdrawals_checked"}
 
 func TestVerifC11(t *testing.T) {
 	r := vh.Start(t, "C11")
 	defer r.Finish()
+	zvoTune()
 	r.Rule("per universe (session kind ibgp|rs-client|ebgp|rr-client x attribute in which path 2 differs from path 0 outside ComputeHash x attribute in which path 3 differs), " +
 		"BFS over all AddPath/RemovePath histories of 4 Loc-RIB paths (0 and 1 attribute-identical) on 3 prefixes against a real add-path AdjRIBOut until the canonical state " +
 		"(model, table, peer view, private pathIDManager maps and counters; identifiers ranked) set closes; evaluations = universes explored")
